@@ -445,6 +445,8 @@ def evaluate__avg(self: XPathFunction, context: ta.ContextType = None) \
             for item in values[1:]:
                 value = value + item  # type: ignore[operator, assignment]
             return value / len(values)  # type: ignore[operator]
+        except OverflowError as err:
+            raise self.error('FODT0002', err) from None
         except TypeError as err:
             if isinstance(context, XPathSchemaContext):
                 return []
